@@ -422,7 +422,11 @@ pub fn flex_layout(
                 (space, space)
             }
             Justify::SpaceAround => {
-                let space = unused / children.len();
+                let space = if children.is_empty() {
+                    unused
+                } else {
+                    unused / children.len()
+                };
                 (space / 2, space)
             }
         }
